@@ -33,7 +33,9 @@ Op ==
     \/ \E k \in Ops \cap {"joint", "marginal", "conditional"} :
           IF TransformOK(c, p) THEN ATransform(k, 1, 2) ELSE ATransformRefused(k, 1, 2)
     \/ "set_y" \in Ops /\ \E N \in (IF CR(c) = 1 THEN {1, 2, 3} ELSE {CR(c)}) : ASetY(1, N, 1)
+    \/ "set_y_far" \in Ops /\ \E N \in (IF CR(c) = 1 THEN {1, 3} ELSE {CR(c)}) : ASetY(1, N, 11)      \* outlying observations
     \/ "cond_on_x" \in Ops /\ \E N \in {1, 2} : ACondOnX(1, N, 1, "condition_on_x")
+    \/ "cond_on_x_far" \in Ops /\ ACondOnX(1, 2, 11, "condition_on_x")
     \/ \E k \in Ops \cap {"conditional_entropy", "mutual_information"} : TransformOK(c, p) /\ AInfo(k, 1, 2)
     \/ "int_log_cond" \in Ops /\ AIntLogCond(1, 2)
     \/ "int_log_cond_y" \in Ops /\ \E via \in {"callable", "y"} : AIntLogCondY(1, 2, 0, via)
